@@ -3,8 +3,12 @@
 # pattern) against the checks named in its meta.json "caught_by" and prints one line per seed.
 # The confirmation step (demonstration + baseline) is skipped: it was done when the seed was kept.
 cd "$(dirname "$0")/.."
+# SHARD=k/n: only every n-th seed, starting with the k-th (use with SEED_SLOT to run shards side by side)
+k=${SHARD%%/*}; n=${SHARD##*/}; i=0
 for d in seeded/${1:-*}/; do
   d=${d%/}
+  i=$((i+1))
+  if [ -n "${SHARD:-}" ] && [ $(( (i-1) % n )) -ne $(( k )) ]; then continue; fi
   checks=$(python3 -c "import json,sys;print(' '.join(json.load(open(sys.argv[1]))['caught_by']))" "$d/meta.json")
   out=$(SEED_SKIP_CONFIRM=1 tools/try_seed.sh "$d" $checks 2>&1)
   res=$(echo "$out" | grep -E "^-- C[0-9]+ exit=" | tr '\n' ' ')
